@@ -1201,11 +1201,29 @@ func (ex *executor) assumeSorted(st *state, cl *closureVal, n *Term) (ok bool) {
 	sub.inSpec = true
 	scratch := st.clone()
 	res := (&sub).inlineCall(scratch, cl.fn, []Value{{T: intT, C: []*Term{BVBin("bvadd", k, BVI(1, 64))}}, {T: intT, C: []*Term{k}}}, cl.bindings, token.NoPos)
+	// what the comparator's callees guarantee about their results (e.g. bytes.Compare by content) holds for
+	// every k: kept inside the quantifier
+	var during []*Term
+	src := r.assumes
+	if sr := (&sub).root(); sr != r && len(sr.assumes) >= nAss {
+		src = sr.assumes // the comparator ran under a copy of the root executor
+	}
+	for _, h := range src[nAss:] {
+		if h.bound {
+			during = append(during, h)
+		}
+	}
+	if os.Getenv("GOVC_DEBUG") != "" {
+		for _, h := range during {
+			fmt.Printf("DEBUG assumeSorted during: %s\n", h.Short())
+		}
+	}
 	r.assumes = r.assumes[:nAss]
 	if len(res.C) != 1 || res.C[0].sort.K != SBool {
 		return false
 	}
-	rng := And(BVCmp("bvsle", BVI(0, 64), k), BVCmp("bvslt", BVBin("bvadd", k, BVI(1, 64)), n))
-	ex.assume(st, Forall([]*Term{k}, Implies(rng, Not(res.C[0]))))
+	// 0 <= k < n-1, written so that k+1 cannot wrap
+	rng := And(BVCmp("bvsle", BVI(0, 64), k), BVCmp("bvslt", k, n), BVCmp("bvslt", BVBin("bvadd", k, BVI(1, 64)), n))
+	ex.assume(st, Forall([]*Term{k}, Implies(rng, And(append(during, Not(res.C[0]))...))))
 	return true
 }
